@@ -19,7 +19,7 @@ PY
 export GOFLAGS=-mod=mod GOPROXY=off GOSUMDB=off GOTOOLCHAIN=local
 if ! (cd "$D" && go build ./... 2>/dev/null); then echo "MUTANT-DOES-NOT-BUILD"; exit 3; fi
 if ! (cd "$D" && go test -vet=off -count=1 -timeout 300s ./... >/dev/null 2>&1); then echo "MUTANT-FAILS-REPO-TESTS"; exit 3; fi
-out=$(cd /verif && VERIF_REPO="$D" VERIF_BUILD="/verif/.build/mut-$prop" ./check "$prop" "$tier" 2>&1)
+out=$(cd /verif && VERIF_RUN_TAG="-mut$$" VERIF_REPO="$D" VERIF_BUILD="/verif/.build/mut-$prop" ./check "$prop" "$tier" 2>&1)
 rc=$?
 echo "$out" | grep -E "^(VIOLATION|INCONCLUSIVE|OK|KNOWN)" | head -4 | cut -c1-250
 echo "$out" | grep -E "^  key=" | head -2 | cut -c1-250
